@@ -75,7 +75,7 @@ structure StageCfg where
   weights            : Option Bytes := none
   stages             : Option Bytes := none
   concurrency        : Option Int := none
-  jitter             : Option Unit := none      -- only presence matters
+  jitter             : Option Int := none       -- percent (the generator writes integers)
   volume             : Option Unit := none
   duration           : Option Int := none
   iterationFrequency : Option Int := none
@@ -108,6 +108,9 @@ structure RStage where
   interval    : Int          -- tick interval of a rate-driven stage, 0 for users
   users       : Int          -- users concurrency, 0 for a rate-driven stage
   params      : List (String × String)
+  jitter      : Int := 0     -- jitter percent the stage's rate function was built with (0 for users)
+  distNone    : Bool := false  -- rate-driven stage whose resolved distribution is "none"
+  constant    : Bool := false  -- mode constant
   deriving Repr, DecidableEq
 
 structure PlanOut where
@@ -130,25 +133,26 @@ def req {α β} (o : Option α) (f : α → Res β) : Res β := match o with | s
 /-- `parseStage`: mode-specific validation with defaults, then the calculator -/
 def parseStage (s d : StageCfg) (mode : Bytes) (duration : Int) : Res RStage :=
   let params := (inh s.parameters d.parameters).getD []
+  let jit := (inh s.jitter d.jitter).getD 0
   if mode = b_constant then
     req (inh s.rate d.rate) fun rate => req (inh s.distribution d.distribution) fun dist =>
-      (calcConstant rate dist).bind fun iv => .ok ⟨duration, iv, 0, params⟩
+      (calcConstant rate dist).bind fun iv => .ok ⟨duration, iv, 0, params, jit, dist == b_none, true⟩
   else if mode = b_ramp then
     req (inh s.startRate d.startRate) fun sr => req (inh s.endRate d.endRate) fun er =>
       req (inh s.distribution d.distribution) fun dist =>
-        (calcRamp sr er dist duration).bind fun iv => .ok ⟨duration, iv, 0, params⟩
+        (calcRamp sr er dist duration).bind fun iv => .ok ⟨duration, iv, 0, params, jit, dist == b_none, false⟩
   else if mode = b_staged then
     req (inh s.stages d.stages) fun st => req (inh s.iterationFrequency d.iterationFrequency) fun fr =>
       req (inh s.distribution d.distribution) fun dist =>
-        (calcStaged fr st dist).bind fun iv => .ok ⟨duration, iv, 0, params⟩
+        (calcStaged fr st dist).bind fun iv => .ok ⟨duration, iv, 0, params, jit, dist == b_none, false⟩
   else if mode = b_gaussian then
     req (inh s.volume d.volume) fun _ => req (inh s.repeat_ d.repeat_) fun _ =>
       req (inh s.iterationFrequency d.iterationFrequency) fun fr => req (inh s.peak d.peak) fun _ =>
         req (inh s.weights d.weights) fun w => req (inh s.stddev d.stddev) fun sd =>
           req (inh s.distribution d.distribution) fun dist =>
-            (calcGaussian fr sd w dist).bind fun iv => .ok ⟨duration, iv, 0, params⟩
+            (calcGaussian fr sd w dist).bind fun iv => .ok ⟨duration, iv, 0, params, jit, dist == b_none, false⟩
   else if mode = b_users then
-    req (inh s.concurrency d.concurrency) fun c => if c < 1 then .err else .ok ⟨duration, 0, c, params⟩
+    req (inh s.concurrency d.concurrency) fun c => if c < 1 then .err else .ok ⟨duration, 0, c, params, 0, false, false⟩
   else .err
 
 /-- the skip rule: keep a stage iff no stage-start is given or stage-start + cumulative duration
@@ -173,7 +177,7 @@ def parsePlan (c : Config) (now : Int) : Res PlanOut :=
     req c.limits.maxIterations fun maxIt => req c.limits.ignoreDropped fun ign =>
       if c.stages.isEmpty then .err else
       let d := { c.default_ with concurrency := inh c.default_.concurrency (some conc),
-                                 jitter := inh c.default_.jitter (some ()) }
+                                 jitter := inh c.default_.jitter (some 0) }
       (stageLoop d c.stageStart now c.stages 0 []).bind fun r =>
         .ok { scenario := scenario, stages := r.1, total := r.2, maxDuration := maxDur, concurrency := conc,
               maxIterations := maxIt, maxFailures := c.limits.maxFailures.getD 0,
